@@ -77,6 +77,16 @@ pub fn check_span(input: &str, what: &str, s: Span) -> Option<String> {
     None
 }
 
+/// `build_ast(PullParser::new(input, ext))` against the model's `buildAstOfInput` (Syntax/Ast.lean): blocks, items,
+/// texts with their spans, and the report. A panic is judged by C03; here it only shows as a disagreement.
+pub fn ast_case(ctx: &mut Ctx, input: &str, ext_bits: u32, desc: &str) {
+    let ext = Extensions::from_bits_retain(ext_bits);
+    let r = guarded(|| { let res = cooklang::ast::build_ast(PullParser::new(input, ext)); (r_ast(&res), res.output().map_or(0, |a| a.blocks.len())) });
+    let (reply, nblocks) = match r { Ok(x) => x, Err(_) => { ctx.count("ast:panicked"); ("PANIC".to_string(), 1) } };
+    ctx.count(&format!("ast:blocks:{}", match nblocks { 0 => "0", 1 => "1", 2..=4 => "2-4", _ => "5+" }));
+    ctx.case(format!("ast {ext_bits} {}", enc_text(input)), reply, nblocks > 0, format!("build_ast {desc}"));
+}
+
 pub fn one(ctx: &mut Ctx, input: &str, ext_bits: u32, full_parse: bool) {
     let ext = Extensions::from_bits_retain(ext_bits);
     let desc = format!("ext={ext_bits} input={input:?}");
@@ -107,6 +117,8 @@ pub fn one(ctx: &mut Ctx, input: &str, ext_bits: u32, full_parse: bool) {
     };
     for e in &evs { match e { Event::Error(d) | Event::Warning(d) => ctx.count(&format!("diag:{}", diag_kind(d))), Event::Ingredient(_) => ctx.count("ev:ingredient"), Event::Cookware(_) => ctx.count("ev:cookware"), Event::Timer(_) => ctx.count("ev:timer"), Event::Metadata { .. } => ctx.count("ev:metadata"), Event::Section { .. } => ctx.count("ev:section"), Event::YAMLFrontMatter(_) => ctx.count("ev:frontmatter"), Event::Text(_) => ctx.count("ev:text"), _ => {} } }
     ctx.case(format!("events {ext_bits} {}", enc_text(input)), r_events(&evs), evs.len() > 2, desc.clone());
+    // 2b. the optional AST built from the same events
+    ast_case(ctx, input, ext_bits, &desc);
     let mut spans = Vec::new(); let mut frags = Vec::new();
     for e in &evs { event_spans(e, &mut spans, &mut frags); }
     for (what, s) in &spans {
